@@ -5,7 +5,8 @@ import pktcommon as PC
 
 KN = {}
 LENGTHS_AND_CHECKSUMS = {'checksum', 'tot_len', 'length', 'head_len', 'data_offset', 'payload_length', 'len', 'header_len', 'hlen', 'padding', 'bottom_of_stack'}
-ICMP_UNION = {'gateway', 'id', 'pointer', 'mtu', 'sequence', 'identifier', 'reachable_time'}
+# getters that alias the octet holding the RFC 4884 length (ICMP: byte 5, ICMPv6: byte 4); seen with VERIF_SEED=2 (hop_limit)
+ICMP_UNION = {'gateway', 'id', 'pointer', 'mtu', 'sequence', 'identifier', 'reachable_time', 'hop_limit', 'maximum_response_code', 'override', 'solicited', 'router'}
 TAGS = {'eth_type', 'protocol', 'payload_type', 'next_header', 'family', 'type'}
 # getters that expose a cache libtins fills while serialising (derived from the option list): not part of the view
 DERIVED_CACHES = {('DHCP', 'vend'), ('Dot1Q', 'append_padding')}
